@@ -124,7 +124,24 @@ func runC09(pl *plan.Plan, out *plan.Outcome) {
 		s.runOps(pl.Ops)
 		s.closeExporter()
 	})
-	if res := env.Run(); res != "done" && out.Trouble == "" {
+	res := env.Run()
+	if res == "stuck" && sess != nil {
+		// Nothing in these sessions can block a send legitimately (the peer reads everything, no
+		// window): every task is blocked with no timer pending, so a call into the exporting process
+		// never returns. After a rejected invalid attempt that is "later sends" not producing messages.
+		rejected := 0
+		for _, c := range sess.calls {
+			if c.Expect == "error" && c.Err != nil {
+				rejected++
+			}
+		}
+		if rejected > 0 {
+			last := sess.calls[len(sess.calls)-1]
+			env.Violate("later-send-never-returns", "", "after %d invalid attempts were rejected (last completed call: %s, err=%v) a later SendSet / refresh / Close never returns: the run ended with every task blocked and no timer pending", rejected, last.Kind, last.Err)
+			return
+		}
+	}
+	if res != "done" && out.Trouble == "" {
 		out.Trouble = "run ended: " + res
 	}
 	if sess == nil {
